@@ -161,10 +161,28 @@ RULE_ITER = ("TLC enumerates every match set of every haystack length within the
              "of every backend (plus forced dispatch), identity and stretched, with size_hint, count() of a clone and the future of a mid-iteration clone compared")
 
 
+def tlaps_iter_window(ctx):
+    """Unbounded supplement (optional, never fails a check): TLAPS proof that the iterator window invariant is inductive
+    for arbitrary haystack length and match set (spec/proofs/IterWindow.tla)."""
+    try:
+        p = subprocess.run(["timeout", "600", "tlapm", "--threads", "8", "--cleanfp", "IterWindow.tla"], cwd=os.path.join(C.SPEC, "proofs"),
+                           stdout=subprocess.PIPE, stderr=subprocess.STDOUT, text=True)
+        import re as _re
+        m = _re.search(r"All (\d+) obligations proved", p.stdout)
+        if m:
+            return {"tlaps": {"module": "spec/proofs/IterWindow.tla", "obligations": int(m.group(1)), "discharged": int(m.group(1)),
+                              "theorems": ["InitInv", "NextInv", "Safety", "FreshYield", "DrainedMeansAll"]}}
+        ctx.vehicles_skipped.append({"vehicle": "tlaps IterWindow", "reason": p.stdout[-300:]})
+    except Exception as e:
+        ctx.vehicles_skipped.append({"vehicle": "tlaps IterWindow", "reason": repr(e)})
+    return {}
+
+
 def c06(ctx):
     iter_part(ctx, {"result", "panic"})
     iter_traces(ctx, 150 if ctx.quick else 1500, ops_filter={"next", "next_back"})
-    return C.finish(ctx, "model_checking", RULE_ITER)
+    extra = {} if ctx.quick else tlaps_iter_window(ctx)
+    return C.finish(ctx, "model_checking", RULE_ITER, extra_cov=extra)
 
 
 def miri_vehicles(ctx, vecs, classes, executed):
